@@ -19,7 +19,7 @@ def make_cases(ctx: Ctx):
     cases = []
     n = 400 if ctx.thorough else 80
     for k in range(n):
-        dx = float(r.choice([1.0, 16.0, 100.0, 800.0, 4000.0, 20000.0]))
+        dx = float(r.choice([1.0, 16.0, 100.0, 800.0, 4000.0, 20000.0, 0.75, 2.5, 12.5, 62.5, 1250.5]))   # 1/pm need not be whole metres
         dt = int(r.choice([1, 10, 60, 600, 3600, 86400]))
         # displacement of a fraction of a cell: sqrt(2 D dt)/dx ~ 0.02 … 0.3
         target = float(r.choice([0.02, 0.1, 0.3]))
